@@ -7,6 +7,10 @@ import (
 	"strconv"
 	"strings"
 	"testing"
+	"time"
+
+	storetypes "cosmossdk.io/store/types"
+	sdk "github.com/cosmos/cosmos-sdk/types"
 
 	commontypes "github.com/dymensionxyz/dymension/v3/x/common/types"
 	datypes "github.com/dymensionxyz/dymension/v3/x/delayedack/types"
@@ -140,7 +144,7 @@ func c19Exec(r *Run, line string) string {
 		}
 		return strconv.FormatBool(in)
 	}
-	return "bad-op"
+	return c19Exec2(r, line, f)
 }
 
 var c19Names = []string{"a", "ab", "abc", "rollapp", "rollappx", "x", "dym", "dymension", "z"}
@@ -188,6 +192,249 @@ func c19Bytes(g *Rng) []byte {
 	return b
 }
 
+// ---- time-sorted keys ---------------------------------------------------------------------------
+
+// c19Time builds the time from seven calendar-field tokens starting at f[o]; ok=false when the tuple
+// is not a calendar date (time.Date would normalise it) or the year is negative.
+func c19Time(f []string, o int) (time.Time, bool) {
+	v := make([]int, 7)
+	for i := range v {
+		x, err := strconv.ParseUint(f[o+i], 10, 40)
+		if err != nil {
+			return time.Time{}, false
+		}
+		v[i] = int(x)
+	}
+	t := time.Date(v[0], time.Month(v[1]), v[2], v[3], v[4], v[5], v[6], time.UTC)
+	y, mo, d := t.Date()
+	h, mi, s := t.Clock()
+	if y != v[0] || int(mo) != v[1] || d != v[2] || h != v[3] || mi != v[4] || s != v[5] || t.Nanosecond() != v[6] {
+		return t, false
+	}
+	return t, true
+}
+
+func c19TimeFields(t time.Time) string {
+	t = t.UTC()
+	return fmt.Sprintf("%d %d %d %d %d %d %d", t.Year(), int(t.Month()), t.Day(), t.Hour(), t.Minute(), t.Second(), t.Nanosecond())
+}
+
+var c19Years = []int{0, 1, 9, 10, 99, 100, 999, 1000, 1969, 1970, 1999, 2000, 2024, 2025, 2038, 2100, 2262, 2263, 9998, 9999}
+var c19Nanos = []int{0, 1, 9, 10, 99, 999, 1000, 999999, 1000000, 99999999, 100000000, 500000000, 999999990, 999999998, 999999999}
+
+// c19GenTime draws a valid UTC calendar time: boundary pools for every field, leap days, ends of
+// months; `wide` additionally allows years beyond 9999 (outside the width hypothesis).
+func c19GenTime(g *Rng, wide bool) time.Time {
+	y := c19Years[g.Intn(len(c19Years))]
+	if g.Chance(30) {
+		y = g.Intn(10000)
+	}
+	if wide && g.Chance(50) {
+		y = []int{10000, 10001, 12345, 99999, 100000, 20000}[g.Intn(6)]
+	}
+	mo := 1 + g.Intn(12)
+	if g.Chance(40) {
+		mo = []int{1, 2, 9, 10, 12}[g.Intn(5)]
+	}
+	// last day of that month via normalisation of day 0 of the next month
+	last := time.Date(y, time.Month(mo)+1, 0, 0, 0, 0, 0, time.UTC).Day()
+	d := 1 + g.Intn(last)
+	if g.Chance(50) {
+		d = []int{1, 9, 10, last, last - 1, 2}[g.Intn(6)]
+	}
+	h, mi, s := g.Intn(24), g.Intn(60), g.Intn(60)
+	if g.Chance(50) {
+		h = []int{0, 9, 10, 23}[g.Intn(4)]
+		mi = []int{0, 9, 10, 59}[g.Intn(4)]
+		s = []int{0, 9, 10, 59}[g.Intn(4)]
+	}
+	ns := c19Nanos[g.Intn(len(c19Nanos))]
+	if g.Chance(30) {
+		ns = g.Intn(1000000000)
+	}
+	return time.Date(y, time.Month(mo), d, h, mi, s, ns, time.UTC)
+}
+
+// c19Near perturbs a time by one unit of one field (so that pairs differ in exactly one place)
+func c19Near(g *Rng, t time.Time) time.Time {
+	switch g.Intn(8) {
+	case 0:
+		return t
+	case 1:
+		return t.Add(time.Nanosecond)
+	case 2:
+		return t.Add(-time.Nanosecond)
+	case 3:
+		return t.Add(time.Second)
+	case 4:
+		return t.Add(-time.Minute)
+	case 5:
+		return t.AddDate(0, 0, 1)
+	case 6:
+		return t.AddDate(0, 1, 0)
+	}
+	return t.AddDate(-1, 0, 0)
+}
+
+func c19Sign(x int) int {
+	if x < 0 {
+		return -1
+	}
+	if x > 0 {
+		return 1
+	}
+	return 0
+}
+
+// c19Exec2: ops on time-sorted keys, identifiers with decimal numbers, denoms, lockup and dymns keys.
+func c19Exec2(r *Run, line string, f []string) string {
+	switch f[0] {
+	case "tfmt":
+		// tfmt <zone offset seconds> Y M D h m s ns — the time is handed over in a non-UTC location
+		t, ok := c19Time(f, 2)
+		if !ok {
+			return "invalid-date"
+		}
+		off, _ := strconv.Atoi(f[1])
+		bz := sdk.FormatTimeBytes(t.In(time.FixedZone("z", off)))
+		// monitor: the sortable format parses back to the same instant
+		back, err := sdk.ParseTimeBytes(bz)
+		if t.Year() <= 9999 && (err != nil || !back.Equal(t)) {
+			r.Violate("C19/time_format/roundtrip", fmt.Sprintf("ParseTimeBytes(FormatTimeBytes(%v)) = %v, %v", t, back, err), line)
+		}
+		if t.Year() <= 9999 && len(bz) != 29 {
+			r.Violate("C19/time_format/width", fmt.Sprintf("len %d", len(bz)), line)
+		}
+		return Hex(bz)
+	case "tcmp":
+		a, ok1 := c19Time(f, 1)
+		b, ok2 := c19Time(f, 8)
+		if !ok1 || !ok2 {
+			return "invalid-date"
+		}
+		kc := bytes.Compare(seqtypes.NoticeQueueByTimeKey(a), seqtypes.NoticeQueueByTimeKey(b))
+		tc := a.Compare(b)
+		if kc != tc {
+			if a.Year() <= 9999 && b.Year() <= 9999 {
+				r.Violate("C19/time_key_order/byte-order-differs-from-chronological", fmt.Sprintf("keys compare %d, times compare %d", kc, tc), line)
+			} else {
+				r.Hit("tcmp-year-beyond-9999-order-breaks")
+			}
+		}
+		// second number: order of the field tuples = chronological order (Go's calendar)
+		return fmt.Sprintf("%d %d", kc, tc)
+	case "nqkey":
+		t, ok := c19Time(f, 2)
+		if !ok {
+			return "invalid-date"
+		}
+		return Hex(seqtypes.NoticeQueueBySeqTimeKey(string(unhex(f[1])), t))
+	case "nqscan", "nqother":
+		T, ok := c19Time(f, 1)
+		if !ok {
+			return "invalid-date"
+		}
+		start, end := seqtypes.NoticePeriodQueueKey, storetypes.PrefixEndBytes(seqtypes.NoticeQueueByTimeKey(T))
+		var k []byte
+		if f[0] == "nqscan" {
+			t, ok := c19Time(f, 9)
+			if !ok {
+				return "invalid-date"
+			}
+			k = seqtypes.NoticeQueueBySeqTimeKey(string(unhex(f[8])), t)
+			in := bytes.Compare(start, k) <= 0 && (end == nil || bytes.Compare(k, end) < 0)
+			// monitor: the elapsed-notice scan returns the entry iff its time is not after T
+			if want := !t.After(T); in != want && T.Year() <= 9999 && t.Year() <= 9999 {
+				r.Violate("C19/notice_queue_scan/membership", fmt.Sprintf("entry at %v, scan up to %v: returned %v", t, T, in), line)
+			}
+			return strconv.FormatBool(in)
+		}
+		k = unhex(f[8])
+		in := bytes.Compare(start, k) <= 0 && (end == nil || bytes.Compare(k, end) < 0)
+		if in && !bytes.HasPrefix(k, seqtypes.NoticePeriodQueueKey) && T.Year() <= 9999 {
+			r.Violate("C19/notice_queue_scan/foreign-key-in-range", fmt.Sprintf("%x", k), line)
+		}
+		return strconv.FormatBool(in)
+	case "pend":
+		e := storetypes.PrefixEndBytes(unhex(f[1]))
+		if e == nil {
+			return "nil"
+		}
+		return Hex(e)
+	case "sqkeys":
+		a := string(unhex(f[1]))
+		return Hex(seqtypes.SequencerKey(a)) + " " + Hex(seqtypes.ProposerByRollappKey(a)) + " " + Hex(seqtypes.SuccessorByRollappKey(a))
+	}
+	return "bad-op"
+}
+
+// c19Gen2 emits one op of the second group.
+func c19Gen2(r *Run, g *Rng, emit func(kind, line string)) {
+	addr := func() string {
+		// bech32-looking sequencer addresses that share long prefixes
+		base := "dym1" + strings.Repeat("q", 3+g.Intn(3))
+		return Hex([]byte(base + []string{"", "a", "ab", "/", "z9"}[g.Intn(5)]))
+	}
+	switch g.Intn(7) {
+	case 0:
+		off := []int{0, 3600, -3600, 19800, 50400, -43200}[g.Intn(6)]
+		emit("tfmt", fmt.Sprintf("tfmt %d %s", off, c19TimeFields(c19GenTime(g, true))))
+	case 1:
+		wide := g.Chance(15)
+		a := c19GenTime(g, wide)
+		b := c19GenTime(g, wide)
+		if g.Chance(60) {
+			b = c19Near(g, a)
+			if b.Year() < 0 {
+				b = a
+			}
+		}
+		emit("tcmp", fmt.Sprintf("tcmp %s %s", c19TimeFields(a), c19TimeFields(b)))
+	case 2:
+		emit("nqkey", fmt.Sprintf("nqkey %s %s", addr(), c19TimeFields(c19GenTime(g, g.Chance(10)))))
+	case 3:
+		T := c19GenTime(g, false)
+		t := c19GenTime(g, false)
+		if g.Chance(70) {
+			t = c19Near(g, T)
+			if t.Year() < 0 || t.Year() > 9999 {
+				t = T
+			}
+		}
+		emit("nqscan", fmt.Sprintf("nqscan %s %s %s", c19TimeFields(T), addr(), c19TimeFields(t)))
+	case 4:
+		// keys of the other families of the sequencer store, and raw neighbours of the bounds
+		T := c19GenTime(g, false)
+		var k []byte
+		switch g.Intn(6) {
+		case 0:
+			k = seqtypes.SequencerKey("dym1qqq")
+		case 1:
+			k = seqtypes.ProposerByRollappKey(c19RollappID(g))
+		case 2:
+			k = seqtypes.SequencerByRollappByStatusKey(c19RollappID(g), "dym1qqq", seqtypes.Bonded)
+		case 3:
+			k = []byte{0x43, 0x01}
+		case 4:
+			k = []byte{0x41, 0xff}
+		case 5:
+			k = append([]byte{0x42}, c19Bytes(g)...)
+		}
+		emit("nqother", fmt.Sprintf("nqother %s %s", c19TimeFields(T), Hex(k)))
+	case 5:
+		b := c19Bytes(g)
+		if g.Chance(50) {
+			b = append(b, bytes.Repeat([]byte{0xff}, g.Intn(4))...)
+		}
+		if g.Chance(10) {
+			b = bytes.Repeat([]byte{0xff}, g.Intn(4))
+		}
+		emit("pend", "pend "+Hex(b))
+	case 6:
+		emit("sqkeys", "sqkeys "+Hex([]byte(c19RollappID(g))))
+	}
+}
+
 func TestC19(t *testing.T) {
 	r := NewRun(t, "C19")
 	r.AutoClass = true
@@ -208,8 +455,12 @@ func TestC19(t *testing.T) {
 		ch := fmt.Sprintf("channel-%d", g.Intn(300))
 		return fmt.Sprintf("%d %s %d %d %s %d", g.Intn(2), Hex([]byte(c19RollappID(g))), g.BoundaryU64(), g.Intn(4), Hex([]byte(ch)), g.BoundaryU64())
 	}
-	n := r.N(4000, 60000)
+	n := r.N(7000, 100000)
 	for i := 0; i < n; i++ {
+		if g.Chance(45) {
+			c19Gen2(r, g, emit)
+			continue
+		}
 		switch g.Intn(13) {
 		case 0:
 			emit("be64", fmt.Sprintf("be64 %d", g.BoundaryU64()))
